@@ -1904,7 +1904,7 @@ func cacheProperties() []*propertySpec {
 			Explanation: "Static analysis of the run loop (same event model as C01): CP2 computes, per decision of one iteration (run, skip, record, persist), the transitive control dependence on the intra-iteration CFG and the backward data slice of every influencing condition and proves that no loop-carried phi or outer cell written in the loop is read (non-interference between tasks); CP3L proves by path search that every successful X is followed on all paths by recording an H-derived digest and persisting it; CP5 proves that a task with an empty input list can never be reported skipped.",
 			NotCovered:  []string{"that equal inputs produce equal digests across runs (C04 determinism)", "that the skip branch is actually taken when digests are equal (value-level)"},
 			Assumptions: trusted,
-			Rules:       []func(*Ctx) *rule{ruleCP2, ruleCP3("CP3L"), ruleCP5, ruleCP11, ruleAB1, ruleAB2}},
+			Rules:       []func(*Ctx) *rule{ruleCP2, ruleCP3("CP3L"), ruleCP5, ruleCP11, ruleCP13, ruleTK6, ruleAB1, ruleAB2}},
 		{ID: "C10", Title: "Killing spok at any point never leads to a wrongly skipped task later",
 			Explanation: "Crash points are quantified over by ordering constraints on every CFG path: CP4 proves that on every intra-iteration path to X the recorded digest is replaced by a constant and persisted first (so a kill at any later instant finds an invalidated entry); CP8 proves that an H-derived digest is only recorded under Ok() of X's own result, after X; CP7 proves that a failed read/decode of the cache file ends in a non-nil error in the loader and in the run loop (torn writes are decode errors by the json contract).",
 			NotCovered:  []string{"atomicity of os.WriteFile beyond 'a torn file does not decode'", "kill during cache.Init of a fresh project (file then holds only empty digests or is torn)"},
@@ -1929,6 +1929,130 @@ func (rl *runLoop) restores() []sEvent {
 		}
 	}
 	return out
+}
+
+// ---- CP13: the record of the last success is only forgotten for a task whose commands are then run -----------------------------
+
+func ruleCP13(c *Ctx) *rule {
+	r := &rule{ID: "CP13", Engine: "E2+E3", Floor: 1,
+		Statement: "once the recorded digest of a task has been invalidated (an empty digest recorded and persisted), every path to the end of the iteration that does not return an error runs the task's commands, or writes the recorded digest back and persists it",
+		Necessity: "an iteration that forgets the record of the last success and then neither runs nor restores (a dry run, a 'nothing to do' shortcut placed after the invalidation) makes the next ordinary run execute a task whose inputs are exactly those of its last success"}
+	rl := c.runLoop()
+	rl.requireEvents()
+	rl.describe(r)
+	key := fname(rl.fn) + " invalidate→run-or-restore"
+	inv := rl.invalidationBeforeX(nil)
+	if !inv.holds || len(inv.s0) == 0 {
+		r.ok(key, c.ipos(rl.X), "the recorded digest is not invalidated before the commands (CP4 judges that)")
+		return r
+	}
+	isS0 := map[ssa.Instruction]bool{}
+	var first *ssa.Call
+	for _, s := range inv.s0 {
+		afterX := false
+		for _, x := range rl.Xs {
+			if before(x, s) {
+				afterX = true // "succeeded with nothing to hash": recorded after the commands, not an invalidation before them
+			}
+		}
+		if !afterX {
+			isS0[s] = true
+			if first == nil {
+				first = s
+			}
+		}
+	}
+	if first == nil {
+		r.ok(key, c.ipos(rl.X), "no invalidation precedes the commands")
+		return r
+	}
+	rOf := map[ssa.Instruction]sEvent{}
+	for _, s := range rl.S {
+		if rl.sIsG(s) && rl.inLoop(s.call) && rl.isTaskName(s.key) {
+			rOf[s.call] = s
+		}
+	}
+	isD := map[ssa.Instruction]bool{}
+	for _, d := range rl.D {
+		isD[d] = true
+	}
+	isX := map[ssa.Instruction]bool{}
+	for _, x := range rl.Xs {
+		isX[x] = true
+	}
+	isX[rl.X] = true
+	bad := ""
+	var badPath []string
+	seen := map[string]bool{}
+	// owed: an invalidation has happened on this path and neither the commands nor a restore+persist have followed yet
+	var dfs func(b *ssa.BasicBlock, owed, restored bool, ps *pathState, path []string)
+	dfs = func(b *ssa.BasicBlock, owed, restored bool, ps *pathState, path []string) {
+		if bad != "" {
+			return
+		}
+		k := fmt.Sprintf("%d|%v|%v|%s", b.Index, owed, restored, ps.key())
+		if seen[k] {
+			return
+		}
+		seen[k] = true
+		path = append(path, fmt.Sprintf("block %d (%s)", b.Index, c.bpos(b)))
+		for _, in := range b.Instrs {
+			if isS0[in] {
+				owed, restored = true, false
+			}
+			if !owed {
+				continue
+			}
+			if isX[in] {
+				return // the commands run: what happens afterwards is CP3 / CP11
+			}
+			if se, ok := rOf[in]; ok && rl.gDerived(ps.resolve(se.val)) != nil {
+				restored = true
+			}
+			if isD[in] && restored {
+				return
+			}
+			if ret, ok := in.(*ssa.Return); ok {
+				if ev := returnedErr(ret); ev != nil && !ps.mayBeNil(ev) {
+					return
+				}
+				bad, badPath = "the run returns without an error after forgetting the recorded digest, without having run the commands or written it back", path
+				return
+			}
+			if _, ok := in.(*ssa.Panic); ok {
+				return
+			}
+		}
+		for i, nx := range b.Succs {
+			_, _, next, feasible := ps.branch(b, i)
+			if !feasible {
+				continue
+			}
+			if rl.loop != nil && (nx == rl.loop.header && rl.loop.body[b] || !rl.loop.body[nx]) {
+				if owed {
+					if _, isRet := lastInstr(nx).(*ssa.Return); isRet && !rl.loop.body[nx] {
+						dfs(nx, owed, restored, next.enter(nx, b), path)
+						continue
+					}
+					bad, badPath = "the iteration ends after the recorded digest was forgotten, without the commands having run and without the digest having been written back and persisted", path
+					return
+				}
+				continue
+			}
+			dfs(nx, owed, restored, next.enter(nx, b), path)
+		}
+	}
+	start := rl.fn.Blocks[0]
+	if rl.loop != nil {
+		start = rl.loop.header
+	}
+	dfs(start, false, false, newPathStateFor(rl.fn), nil)
+	if bad != "" {
+		r.bad(key, c.ipos(first), bad, badPath...)
+	} else {
+		r.ok(key, c.ipos(first), "after every invalidation the commands run (or the digest is written back) on every path that does not fail")
+	}
+	return r
 }
 
 func ruleCP10(c *Ctx) *rule {
